@@ -283,6 +283,17 @@ macro_rules! dispatch {
                 fn_impl($crate::x86_64::SSE2::instance(), $($arg),*)
             }
             unsafe {
+                #[cfg(cryptocorrosion_verif)]
+                {
+                    match $crate::verif::level(stringify!($name)) {
+                        5 => return impl_avx2($($arg),*),
+                        4 => return impl_avx($($arg),*),
+                        3 => return impl_sse41($($arg),*),
+                        2 => return impl_ssse3($($arg),*),
+                        1 => return impl_sse2($($arg),*),
+                        _ => {}
+                    }
+                }
                 if is_x86_feature_detected!("avx2") {
                     impl_avx2($($arg),*)
                 } else if is_x86_feature_detected!("avx") {
@@ -347,6 +358,14 @@ macro_rules! dispatch_light128 {
                 fn_impl($crate::x86_64::SSE2::instance(), $($arg),*)
             }
             unsafe {
+                #[cfg(cryptocorrosion_verif)]
+                {
+                    match $crate::verif::level(stringify!($name)) {
+                        4 | 5 => return impl_avx($($arg),*),
+                        1 | 2 | 3 => return impl_sse2($($arg),*),
+                        _ => {}
+                    }
+                }
                 if is_x86_feature_detected!("avx") {
                     impl_avx($($arg),*)
                 } else if is_x86_feature_detected!("sse2") {
@@ -405,6 +424,14 @@ macro_rules! dispatch_light256 {
                 fn_impl($crate::x86_64::SSE2::instance(), $($arg),*)
             }
             unsafe {
+                #[cfg(cryptocorrosion_verif)]
+                {
+                    match $crate::verif::level(stringify!($name)) {
+                        4 | 5 => return impl_avx($($arg),*),
+                        1 | 2 | 3 => return impl_sse2($($arg),*),
+                        _ => {}
+                    }
+                }
                 if is_x86_feature_detected!("avx") {
                     impl_avx($($arg),*)
                 } else if is_x86_feature_detected!("sse2") {
